@@ -786,6 +786,94 @@ def r3_memory_bitwise(ctx, F):
     A.names = saved
 
 
+class MapScenario(Opaque):
+    """a BTreeMap seen through its entry API under one scenario: the looked-up key is present (with value `cur`) or absent"""
+    def __init__(self, name, present, cur):
+        Opaque.__init__(self, name)
+        self.present, self.cur, self.log = present, cur, []
+
+
+def r5_range_conservation(ctx, F):
+    """RangeChecker::add_range_checks: every value is counted once in the multiplicity table and all values are recorded for
+    the row, whether or not the row already has recorded values (u32 operation and memory access on the same row index)"""
+    fn = F.fn(r"^miden_processor::range::RangeChecker::add_range_checks$")
+    adt = F.adt(r"^miden_processor::range::RangeChecker$")
+    fields = [f["name"] for f in adt["variants"][0]["fields"]]
+    for present in (False, True):
+        for nvals in (2, 4):
+            key = "add_range_checks|row-%s|%d-values" % ("occupied" if present else "vacant", nvals)
+            ctx.inst(key=key, nontrivial=True)
+            vals = [Term("v%d" % i) for i in range(nvals)]
+            old = [Term("old0"), Term("old1")]
+            cyc = MapScenario("cycle_lookups", present, Agg(list(old), "vec") if present else None)
+            cnt = MapScenario("lookups", True, None)
+            counts = []
+            I = Interp(F)
+            add = lambda rx, m: I.overrides.append((re.compile(rx), m))
+
+            def entry(I, a, f):
+                m = deref(a[0])
+                e = Opaque("entry")
+                e.map, e.key = m, a[1]
+                if m.name == "lookups":
+                    e.slot = [Term("count", a[1])]
+                    e.present = True        # both branches are analysed by the closure / or_insert value below
+                else:
+                    e.slot = [m.cur]
+                    e.present = m.present
+                return e
+            add(r"btree::map::BTreeMap::entry$", entry)
+
+            def and_modify(I, a, f):
+                e = a[0]
+                if e.map.name == "lookups":
+                    I.call_closure(a[1], [Ptr(e.slot, 0)])
+                    e.modified = e.slot[0]
+                elif e.present:
+                    I.call_closure(a[1], [Ptr(e.slot, 0)])
+                return e
+            add(r"btree::map::entry::Entry::and_modify$", and_modify)
+
+            def or_insert(I, a, f):
+                e = a[0]
+                if e.map.name == "lookups":
+                    counts.append((e.key, getattr(e, "modified", None), a[1]))
+                    return Ptr(e.slot, 0)
+                if not e.present:
+                    e.slot[0] = a[1]
+                e.map.final = e.slot[0]
+                return Ptr(e.slot, 0)
+            add(r"btree::map::entry::Entry::or_insert$", or_insert)
+
+            def or_insert_with(I, a, f):
+                e = a[0]
+                if not e.present:
+                    e.slot[0] = I.call_closure(a[1], [])
+                e.map.final = e.slot[0]
+                return Ptr(e.slot, 0)
+            add(r"btree::map::entry::Entry::or_insert_with$", or_insert_with)
+            add(r"slice::\[T\]::to_vec$|slice::<impl \[T\]>::to_vec$|::to_vec$", lambda I, a, f: Agg(list((a[0] if isinstance(a[0], SlicePtr) else I.as_slice(a[0])).values()), "vec"))
+            selfv = Agg([{"lookups": cnt, "cycle_lookups": cyc}.get(n, Opaque(n)) for n in fields], "adt", adt["id"], adt["variants"][0]["name"])
+            try:
+                I.call(fn.id, [Ptr([selfv], 0), Term("row"), SlicePtr(list(vals), 0, nvals)])
+            except (Unanalysable, PanicReached) as e:
+                ctx.violation("UNANALYSABLE|%s" % key, fn.loc(), str(e)[:300])
+                continue
+            final = getattr(cyc, "final", None)
+            got = [repr(x) for x in final.items] if isinstance(final, Agg) else None
+            want = ([repr(x) for x in old] if present else []) + [repr(v) for v in vals]
+            ok = got == want
+            ctx.oblig(ok)
+            if not ok:
+                ctx.violation("range-row-lookups|%s" % ("occupied" if present else "vacant"), fn.loc(),
+                              "add_range_checks on a row that %s records %s for the row; expected %s: lookups of that row are lost, so b_range subtracts fewer values than the table's multiplicities add"
+                              % ("already has lookups [old0, old1]" if present else "has no lookups yet", got, want))
+            okc = [repr(k) for k, m, ins in counts] == [repr(v) for v in vals] and all(repr(m) == "+(count(%r), 1)" % (k,) and ins == 1 for k, m, ins in counts)
+            ctx.oblig(okc)
+            if not okc:
+                ctx.violation("range-multiplicity", fn.loc(), "add_range_checks must increment the multiplicity of each value exactly once (present: +1, absent: insert 1): %s" % [(repr(k), repr(m), ins) for k, m, ins in counts])
+
+
 def run(ctx, F):
     ctx.trusted += ["rustc MIR via mirfacts", "mirsym; the auxiliary-column model (vlib/auxmodel.py: symbolic main trace, MainTrace accessors interpreted from source)",
                     "operation model (vlib/procmodel.py) for the values handlers write", "docs/src/design/decoder/constraints.md and stack/main.md as oracle for virtual-table rows"]
@@ -795,6 +883,7 @@ def run(ctx, F):
     ctx.run_rule("C12-R1", "every operation that makes a chiplet record rows has a bus request and no other operation has one", r1_requesters, F)
     ctx.run_rule("C12-R2", "number of request factors = number of bus-visible rows the handler records (memory, bitwise) / documented hasher lookups", r2_arity, F)
     ctx.run_rule("C12-R3", "memory and bitwise requests equal, symbolically, the product of the chiplet responses of the rows the handler records; labels agree", r3_memory_bitwise, F)
+    ctx.run_rule("C12-R5", "RangeChecker::add_range_checks counts every value once and records all values of a row, also when the row already has lookups", r5_range_conservation, F)
     ctx.run_rule("C12-R4a", "virtual-table rows (block stack, block hash, op group, stack overflow) equal the documented rows for every operation; CALL/SYSCALL rows agree between insertion and removal", r4a_decoder_tables, F)
     ctx.run_rule("C12-R4b", "every block-stack push/pop has an insertion/removal; every executor that runs child blocks inserts them into the block hash table", r4b_who_inserts, F)
     ctx.run_rule("C12-R4c", "MainTrace::is_left_shift / is_right_shift agree with each operation's stack effect", r4c_shift_predicates, F)
